@@ -29,3 +29,27 @@ CHECKS += [
      "note": _NOTE},
 ]
 NOT_APPLICABLE = [x for x in NOT_APPLICABLE if x["property_id"] not in {c["id"] for c in CHECKS}]
+
+CHECKS += [
+    {"id": "C03", "design": "DESIGN.md#c03-variables--objects",
+     "technique": "runtime contracts on every var/object/stacked-vector converter and index map with a constraint-derived reference; exhaustive enumeration of variable indices per configuration",
+     "text": "All variable <-> object <-> stacked-vector conversions of the four classes, the eight index converters, calc_gradient, SetQOperations total/local index maps and rebuild, and num_variables of the four tomography classes are hooked; post-conditions compare with implied entries derived independently from the constraints and with an all-distinct probe vector that identifies which entry holds which variable. Index parts are exhaustive over all 80 configurations (4 types x flags x m 2..5 x S1,S3,S2,S23; 50,831 indices).",
+     "note": _NOTE},
+    {"id": "C04", "design": "DESIGN.md#c04-constraint-projections-are-nearest-points",
+     "technique": "runtime contracts on the eq/ineq projections (object, static and closure forms) with reference orthogonal projection / eigen-clipping, variational-inequality oracle, byte-digest purity monitor",
+     "text": "Every execution of calc_proj_eq/ineq_constraint, their _with_var forms and the four func_calc_proj_* closures for the four classes is judged: reference feasibility, equality with the independently derived nearest point (affine projection / PSD clipping), variational inequality against 50 feasible points, idempotence, fixed points, agreement of all forms under both flags, and byte-identical operands afterwards. Inputs: Gaussian parameters at scales 1e-3,1,1e3, degenerate spectra, feasible and boundary points, m 2..5, S1,S3,S2,S23.",
+     "note": _NOTE + "; one known finding (projection raises at scale 1e3 through an absolute imaginary-part threshold) is listed in known_findings.json"},
+    {"id": "C08", "design": "DESIGN.md#c08-forward-model",
+     "technique": "runtime contracts on calc_matA/calc_vecB/calc_prob_dist(s)/generate_prob_dists_sequence/num_variables/num_outcomes/is_fullrank_matA; affine maps compared on an affine basis against the real circuit and a reference Born rule",
+     "text": "The affine model (A,b) of the four tomography classes is compared column by column (var=0 and all unit vectors) with a reference Born rule built from raw arrays, and on an affine basis of physical objects with the distribution the real Experiment circuit returns, including outcome order; column count, num_outcomes, full column rank for informationally complete tester sets (IC judged independently from the testers' operator span). Tester sets with mixed outcome counts, IC and non-IC, schedule subsets/repetitions/permutations, both flags, S1,S3,S2.",
+     "note": _NOTE + "; is_fullrank_matA on non-IC (under-determined) sets is recorded, not judged"},
+    {"id": "C12", "design": "DESIGN.md#c12-loss-values-derivatives-fast-paths",
+     "technique": "runtime contracts on value/gradient/hessian of all loss classes and entropy helpers: defining-formula reference, exact second-difference / Romberg finite-difference derivative oracles, fast-vs-generic comparison, weighting-mode effect oracle",
+     "text": "Every value/gradient/hessian execution of the generic and tomography-specialised losses (freshly constructed per configuration) is compared with the defining formula on p=A var+b, the data and the weights the option asked for; gradients and Hessians with finite differences of the reported value; fast with generic; every accepted weighting mode must take effect (m 2..5 outcomes, 4 tomography types x flags, zero entries, custom SPD weights, all modes).",
+     "note": _NOTE + "; inverse-covariance weights are accepted in the textbook or the implementation's ridge-regularised form (docstrings do not fix it)"},
+    {"id": "C20", "design": "DESIGN.md#c20-schedule-validation",
+     "technique": "runtime contracts on Experiment constructor/setters/calc_prob_dist and the tomography constructors against an independent well-formedness predicate; exhaustive enumeration of schedules",
+     "text": "All 475,255 schedules of length 0..4 over a 26-item alphabet (4 kinds x in/out-of-range indices + malformed items) x 3 list-size configurations (thorough: more configurations and all length-5 well-typed schedules) are constructed; acceptance must equal a 25-line predicate transcribed from the statement, rejections must be the schedule-item/order error, rejected setters leave the experiment unchanged, accepted schedules ending in their only POVM execute to a normalised distribution; every custom schedule of length <= 4 for the four tomography classes.",
+     "note": _NOTE + "; bool / numpy-integer indices and tuple/str subclasses are left unjudged as the statement does not settle them"},
+]
+NOT_APPLICABLE = [x for x in NOT_APPLICABLE if x["property_id"] not in {c["id"] for c in CHECKS}]
